@@ -54,9 +54,14 @@ func (f *vFix) snapsHoldHas(name string) bool {
 	return ok
 }
 
+// c11Observations collects leftovers of a removed snap that the statement does not name (aliases on the
+// system, snaps-hold entries); the runner records them in the evidence without failing.
+var c11Observations []string
+
 // c11Invariants evaluates the statement on the current fixture; each entry is "<invariant>: details".
 func c11Invariants(f *vFix) []string {
 	var v []string
+	c11Observations = nil
 	w := f.world()
 	all := f.allSnaps()
 	raw := f.rawSnapsKeys()
@@ -92,11 +97,12 @@ func c11Invariants(f *vFix) []string {
 		if o.Config != "" || len(o.RevConfig) > 0 {
 			v = append(v, fmt.Sprintf("removed-but-config: %s: config %q, per-revision %v", name, o.Config, o.RevConfig))
 		}
+		// not part of the statement, recorded as observations only (see c11Observations)
 		if len(w.Aliases[name]) > 0 {
-			v = append(v, fmt.Sprintf("removed-but-aliases: %s: %v", name, w.Aliases[name]))
+			c11Observations = append(c11Observations, fmt.Sprintf("removed-but-aliases: %s: %v", name, w.Aliases[name]))
 		}
 		if f.snapsHoldHas(name) {
-			v = append(v, fmt.Sprintf("removed-but-held: %s still in snaps-hold", name))
+			c11Observations = append(c11Observations, fmt.Sprintf("removed-but-held: %s still in snaps-hold", name))
 		}
 	}
 	return v
@@ -157,6 +163,18 @@ func (cr *c11Runner) report(path vPath, op vOp, viol []string, f *vFix) {
 	}
 }
 
+// observe records leftovers outside the statement (first path per kind goes into the evidence).
+func (cr *c11Runner) observe(path vPath) {
+	for _, o := range c11Observations {
+		kind := strings.SplitN(o, ":", 2)[0]
+		cr.r.Add("observations_outside_statement", 1)
+		if cr.r.Distinct("observation", kind) {
+			cr.r.Info("observation:"+kind, map[string]interface{}{"path": path, "what": o})
+		}
+	}
+	c11Observations = nil
+}
+
 func (cr *c11Runner) count(res vRes, op vOp) {
 	r := cr.r
 	r.Add("evaluations", 1)
@@ -205,9 +223,13 @@ func (cr *c11Runner) continueFrom(path vPath, key string, a, b vSnap, failuresLe
 			continue
 		}
 		cr.count(res, op)
+		if res.Status != "Done" {
+			cr.r.Violation("change-failed:"+op.K, fmt.Sprintf("%s without injected failure ended %s (history %s): %s", op, res.Status, eng.JSON(path.Ops), res.ChgErr), c11Case{Path: np})
+		}
 		if viol := c11Invariants(f); len(viol) > 0 {
 			cr.report(np, op, viol, f)
 		}
+		cr.observe(np)
 		k2, a2, b2 := f.vStateKey()
 		f.close()
 		if !cr.known[k2] {
@@ -266,6 +288,7 @@ func (cr *c11Runner) failingOps(st vState, onlyOp int, failuresLeft int) {
 			r.Violation("unsettled-or-not-failed:"+op.K, fmt.Sprintf("change with injected failure ended %s (%s)", res.Status, res.ChgErr), c11Case{Path: np})
 		}
 		viol := c11Invariants(f)
+		cr.observe(np)
 		if len(viol) > 0 {
 			// confirm on the minimal history (fresh fixture) before reporting
 			mp := vPath{Cfg: st.Path.Cfg, Ops: append(append([]vOp(nil), st.Path.Ops...), op)}
@@ -352,6 +375,12 @@ func (s *verifC11Suite) TestVerifC11(c *C) {
 			for _, v := range out.Viol {
 				r.Violation(c11Key(v, op), fmt.Sprintf("after %s (history %s): %s", op, eng.JSON(path.Ops), v), c11Case{Path: np, Viol: out.Viol, A: &out.A, B: &out.B})
 			}
+		}
+		vBFSNotDone = func(path vPath, op vOp, out vExpandOut) {
+			// a failure-free operation whose change fails: the handlers' own consistency checks tripped
+			// (the invariants evaluated after it are reported by vBFSViolation as well)
+			np := vPath{Cfg: path.Cfg, Ops: append(append([]vOp(nil), path.Ops...), op)}
+			r.Violation("change-failed:"+op.K, fmt.Sprintf("%s without injected failure ended %s (history %s): %s", op, out.Res.Status, eng.JSON(path.Ops), out.Res.ChgErr), c11Case{Path: np, A: &out.A, B: &out.B})
 		}
 		var trans int
 		states, trans = vBFS("C11", c, []vPath{{Cfg: cfg}}, c11Gen, depth, 16)
